@@ -17,3 +17,122 @@ def try_symbolic_dictcomp(interp, e, env):
 class SymRange:
     def __init__(self, interp, args):
         raise Unsupported("symbolic range")
+
+
+# ===================================================================================== abstract label lists (C13)
+import z3 as _z3
+from . import builtins_ as _B
+
+
+def label_str(term):
+    return SegStr([LabelHole(term)])
+
+
+def label_term(v):
+    """Name term of an abstract label string, or None."""
+    if isinstance(v, SegStr) and len(v.parts) == 1 and isinstance(v.parts[0], LabelHole):
+        return v.parts[0].term
+    return None
+
+
+class LabelList:
+    """A list of pairwise distinct, non-blank label strings of symbolic length n >= 1 (row or column names).
+    pos(x) is the index of label x if it occurs (0 <= pos(x) < n) and at(j) the label at index j; the two are
+    mutually inverse on the list (instantiated on demand, no quantifiers)."""
+    py_type = 'list'
+    py_iterable = True
+
+    def __init__(self, interp, tag):
+        self.tag = tag
+        self.n = _z3.Int(f'n_{tag}')
+        self.pos = _z3.Function(f'pos_{tag}', Name, IS)
+        self.at = _z3.Function(f'at_{tag}', IS, Name)
+        interp.assume(self.n >= 1)
+
+    def _touch_pos(self, interp, t):
+        p = self.pos(t)
+        interp.assume(_z3.Implies(_z3.And(p >= 0, p < self.n), self.at(p) == t))
+        return p
+
+    def sym_len(self, interp, node=None):
+        return self.n
+
+    def sym_contains(self, interp, item, node=None):
+        t = label_term(item)
+        if t is None:
+            if isinstance(item, (str, SegStr, NameV)):
+                raise Unsupported("membership of a constructed string in an abstract label list")
+            return False      # a list of strings contains no ints / tuples / None
+        p = self._touch_pos(interp, t)
+        return _z3.And(p >= 0, p < self.n)
+
+    def sym_getattr(self, interp, attr, node=None):
+        if attr == 'index':
+            return BoundV(self, BuiltinV('LabelList.index', LabelList._index))
+        if attr == 'count':
+            raise Unsupported("LabelList.count")
+        if hasattr(list, attr):
+            raise Unsupported(f"list.{attr} on an abstract label list")
+        raise Raised('AttributeError', getattr(node, 'lineno', None), attr, implicit=True)
+
+    @staticmethod
+    def _index(interp, args, kwargs, node):
+        self, item = args[0], args[1]
+        c = self.sym_contains(interp, item, node)
+        if c is False or not interp.decide(c, "label in list"):
+            raise Raised('ValueError', getattr(node, 'lineno', None), 'label is not in list', implicit=True)
+        return self.pos(label_term(item))
+
+    def sym_getitem(self, interp, k, node=None):
+        if isinstance(k, SliceV):
+            raise Unsupported("slice of an abstract label list")
+        kz = intz(k)
+        ok = _z3.Or(_z3.And(kz >= 0, kz < self.n), _z3.And(kz < 0, kz >= -self.n))
+        if not interp.decide(ok, f"label index in range@{getattr(node, 'lineno', None)}"):
+            raise Raised('IndexError', getattr(node, 'lineno', None), 'list index out of range', implicit=True)
+        j = _z3.If(kz >= 0, kz, kz + self.n)
+        t = self.at(j)
+        interp.assume(self.pos(t) == j)
+        return label_str(t)
+
+    def sym_elementwise(self, interp):
+        """A generic element (for all()/any() over the list)."""
+        j = fresh('j', IS)
+        interp.assume(_z3.And(j >= 0, j < self.n))
+        return self.sym_getitem(interp, j)
+
+    def sym_equals(self, interp, other):
+        return other is self
+
+    def sym_iterate(self, interp, node=None):
+        raise Unsupported("iteration over an abstract label list of symbolic length")
+
+
+def _gen_over(interp, gen):
+    """If `gen` is a single-generator comprehension over a symbolic collection, return (collection, generator)."""
+    g = gen.node.generators
+    if len(g) != 1:
+        return None, None
+    it = interp.ev(g[0].iter, gen.env)
+    gen.__dict__['_iter_value'] = it
+    return it, g[0]
+
+
+def try_symbolic_anyall(interp, gen, node, is_any):   # noqa: F811  (replaces the stub above)
+    from .interp import Env
+    it, g = _gen_over(interp, gen)
+    if it is None:
+        return None
+    if isinstance(it, LabelList):
+        # the list is non-empty and all elements are label strings: evaluate the predicate on a generic element
+        sc = Env(gen.env)
+        interp.assign(g.target, it.sym_elementwise(interp), sc)
+        for c in g.ifs:
+            raise Unsupported("filtered any/all over an abstract label list")
+        v = interp.ev(gen.node.elt, sc)
+        if isinstance(v, bool):
+            return v          # same answer for every element; list non-empty
+        raise Unsupported("any/all over an abstract label list with an element-dependent predicate")
+    if hasattr(it, 'sym_anyall'):
+        return it.sym_anyall(interp, gen, g, is_any, node)
+    return None
